@@ -378,6 +378,23 @@ class Gen:
                 self.emit("%s%s %s" % (p, q, h))
         elif op == "dump":
             self.emit("dump")
+        elif op == "parjob":
+            if locked or ref.threads < 1:
+                return
+            hit = sorted(o for o, e in ref.alive.items() if "A" in e["c"])
+            if not hit:
+                return
+            base = self.newtok() * 1000
+            for o in hit:
+                k = o % 4
+                if k == 0:
+                    ref.alive[ref.n] = {"c": ref.closure({"E"}), "s": {}}
+                    ref.n += 1
+                elif k == 1:
+                    ref.alive.pop(o)
+                elif k == 2 and "H" not in ref.alive[o]["c"]:
+                    ref.alive[o]["c"] = ref.closure(ref.alive[o]["c"] | {"H"})
+            self.emit("parjob tasks=%d tok=%d" % (r.randint(1, len(hit) + 1), base))
 
     def _touches(self, t, o, c):
         """is component c of entity o already assigned/removed in the pack currently open on thread t?"""
@@ -586,6 +603,44 @@ def shared_instances_ok(lines):
     return None
 
 
+def expand_parjobs(ops, impl):
+    """replace every `parjob` op by `lock`, the ops the implementation recorded (X lines), `unlock`"""
+    new_ops, new_impl = [], []
+    it = iter(impl)
+    for l in op_lines(ops):
+        if l.split()[0] != "parjob":
+            new_ops.append(l)
+            # copy this op's output lines (dump blocks span several lines)
+            first = next(it, None)
+            if first is None:
+                break
+            new_impl.append(first)
+            if first == "dump":
+                for x in it:
+                    new_impl.append(x)
+                    if x == "end":
+                        break
+            continue
+        first = next(it, None)
+        if first is None:
+            break
+        if first == "bad-op":
+            new_ops.append(l)
+            new_impl.append(first)
+            continue
+        new_ops.append("lock")
+        new_impl.append(first)           # "ok"
+        for x in it:
+            if x.startswith("X "):
+                new_ops.append(x[2:])
+            else:
+                new_impl.append(x)
+                if x.startswith("ret="):
+                    new_ops.append("unlock")
+                    break
+    return "\n".join(new_ops) + "\n", new_impl
+
+
 def op_lines(ops):
     return [l for l in ops.splitlines() if l.strip() and not l.startswith("#")]
 
@@ -649,6 +704,9 @@ class Session:
     def check_file(self, ops, label=""):
         """returns None if fine, else (kind, message) where kind in {'oracle','abort','tie'}"""
         impl, note, err = run_impl(self.exe, ops)
+        if "parjob" in ops and not note:
+            # free-running parallel job: the implementation's recorded interleaving becomes a scripted section
+            ops, impl = expand_parjobs(ops, impl)
         model, mnote = run_model(self.drv, ops)
         if mnote:
             return ("tie", "model driver failed: " + mnote)
